@@ -58,6 +58,7 @@ template <> struct conv<CD> { static CD to(const CQ &q) { return to_cd(q); } sta
 template <class T> static bool trace_lt(const T &, const T &, std::false_type) { return false; }
 typedef std::vector<CQ> CA;      // row-major dense
 static CA dmulc(int n, int k, int m, const CA &X, const CA &Y) { CA Z(n * m, CQ(Q(0))); for (int i = 0; i < n; ++i) for (int j = 0; j < m; ++j) for (int l = 0; l < k; ++l) Z[i * m + j] += X[i * k + l] * Y[l * m + j]; return Z; }
+static CA dcj(const CA &X) { CA Z(X); for (auto &z : Z) z = cconj(z); return Z; }
 static CA dadj(int n, int m, const CA &X) { CA Z(m * n); for (int i = 0; i < n; ++i) for (int j = 0; j < m; ++j) Z[j * n + i] = cconj(X[i * m + j]); return Z; }
 // exact inverse by Gauss-Jordan with complex rational pivots; false for a singular matrix
 static bool dinv(int n, CA M, CA &I) {
@@ -89,9 +90,9 @@ template <class T, int B> struct EVT {
         Mx xy = Xe * Ye; CA a2 = ca(xy); putca(l, a2); l << "|"; if (!cveq(a2, dmulc(B, B, B, X, Y))) r.fail("Eigen block product");
         Vx xv = Xe * ve; CA a3 = ca(xv); putca(l, a3); l << "|"; if (!cveq(a3, dmulc(B, B, 1, X, v))) r.fail("Eigen block times rhs");
         T ipv = m::inner_product(ve, we); CA a4(1, conv<T>::from(ipv)); putca(l, a4); l << "|";
-        if (!cveq(a4, dmulc(1, B, 1, dadj(B, 1, v), w))) r.fail("value_type/eigen.hpp: math::inner_product of rhs vectors is not x^H y");
+        if (!cveq(a4, dmulc(1, B, 1, dadj(B, 1, dcj(v)), dcj(w)))) r.fail("value_type/eigen.hpp: math::inner_product of rhs vectors is not sum x_i conj(y_i) (conjugate-linear in the SECOND argument, as for scalars and static_matrix)");
         Mx ipm = m::inner_product(Xe, Ye); CA a5 = ca(ipm); putca(l, a5); l << "|";
-        if (!cveq(a5, dmulc(B, B, B, dadj(B, B, X), Y))) r.fail("value_type/eigen.hpp: math::inner_product of blocks is not X^H Y");
+        if (!cveq(a5, dmulc(B, B, B, dadj(B, B, dcj(X)), dcj(Y)))) r.fail("value_type/eigen.hpp: math::inner_product of blocks is not X^T conj(Y) (the static_matrix convention: p(i,j) = sum_k x(k,i) conj(y(k,j)))");
         Q ss(0); for (auto &e : X) ss += e.real() * e.real() + e.imag() * e.imag();
         double nr = m::norm(Xe); if (nr != std::sqrt(ss.v.get_d())) r.fail("value_type/eigen.hpp: math::norm is not the Frobenius norm");
         { long s = (long)std::llround(std::sqrt(ss.v.get_d())); if (Q(s * s).v == ss.v) { l << Q(nr); r.tag("norm_exact"); } else l << "irr"; } l << "|";
